@@ -29,8 +29,9 @@ theorem reevaluate_runs_nothing (g : AGraph) (s : St) (root : Nat) (hq : s.queue
     (hst : (s.recOf root).status = .evaluated ∨ (s.recOf root).status = .evaluatingAsync) :
     (evaluate g s root).trace = s.trace ∧ (evaluate g s root).recs = s.recs ∧ (evaluate g s root).queue = [] := by
   unfold evaluate
-  have hv : visit g (g.deps.length + 2) { s with stack := [], idx := 0 } root = { s with stack := [], idx := 0 } := by
-    have hr : (({ s with stack := [], idx := 0 } : St).recOf root).status = (s.recOf root).status := rfl
+  have hv : visit g (g.deps.length + 2) { s with stack := [], idx := 0, error := none } root =
+      { s with stack := [], idx := 0, error := none } := by
+    have hr : (({ s with stack := [], idx := 0, error := none } : St).recOf root).status = (s.recOf root).status := rfl
     unfold visit
     rcases hst with h | h <;> simp [hr, h]
   simp only [hv]
@@ -44,15 +45,26 @@ theorem startAsync_one_job (g : AGraph) (s : St) (m : Nat) :
 
 /-- every await costs exactly one job, and so does the report of the end of the body: from `resume m k` the body's last
     line is printed after exactly `k + 1` turns of this job chain -/
-theorem resume_step (g : AGraph) (s : St) (m k : Nat) :
+theorem resume_step (g : AGraph) (s : St) (m k : Nat) (hnt : g.throwsAt m = false) :
     (runJob g s (.resume m (k + 1))).queue = s.queue ++ [Job.resume m k] ∧ (runJob g s (.resume m (k + 1))).trace = s.trace ∧
-    (runJob g s (.resume m 0)).queue = s.queue ++ [Job.fulfilled m] ∧ (runJob g s (.resume m 0)).trace = s.trace ++ [(m, true)] :=
-  ⟨rfl, rfl, rfl, rfl⟩
+    (runJob g s (.resume m 0)).queue = s.queue ++ [Job.fulfilled m] ∧ (runJob g s (.resume m 0)).trace = s.trace ++ [(m, true)] := by
+  refine ⟨rfl, rfl, ?_, ?_⟩ <;> simp [runJob, hnt, enqueue, emit]
+
+/-- a body that throws reports it with one job and prints no last line -/
+theorem resume_throw (g : AGraph) (s : St) (m : Nat) (ht : g.throwsAt m = true) :
+    (runJob g s (.resume m 0)).queue = s.queue ++ [Job.rejected m] ∧ (runJob g s (.resume m 0)).trace = s.trace := by
+  constructor <;> simp [runJob, ht, enqueue]
 
 -- the two graphs of the repaired defect (§5 of DESIGN.md): a cycle member waiting for fewer / more async dependencies than its root
-example : ((evaluate ⟨[[2, 3], [0], [], [1]], [0, 1, 1, 0]⟩ (St.init 4) 0).trace.map showEv) =
+example : ((evaluate ⟨[[2, 3], [0], [], [1]], [0, 1, 1, 0], []⟩ (St.init 4) 0).trace.map showEv) =
     ["m2:s", "m1:s", "m2:e", "m1:e", "m3:s", "m3:e", "m0:s", "m0:e"] := by decide
-example : ((evaluate ⟨[[1], [0, 2, 3], [], []], [0, 0, 1, 3]⟩ (St.init 4) 0).trace.map showEv) =
+example : ((evaluate ⟨[[1], [0, 2, 3], [], []], [0, 0, 1, 3], []⟩ (St.init 4) 0).trace.map showEv) =
     ["m2:s", "m3:s", "m2:e", "m3:e", "m1:s", "m1:e", "m0:s", "m0:e"] := by decide
+
+-- the graphs of the two error-propagation defects repaired in /repo 47036ad and 5b20b60
+example : ((evaluate ⟨[[1], []], [0, 1], [true, false]⟩ (St.init 2) 0).trace.map showEv) = ["m1:s", "m1:e", "m0:s"] ∧
+    outcomeOf (evaluate ⟨[[1], []], [0, 1], [true, false]⟩ (St.init 2) 0) 0 = "boom0" := by decide
+example : ((evaluate ⟨[[1], [2], []], [0, 0, 1], [false, true, false]⟩ (St.init 3) 0).trace.map showEv) = ["m2:s", "m2:e", "m1:s"] ∧
+    outcomeOf (evaluate ⟨[[1], [2], []], [0, 0, 1], [false, true, false]⟩ (St.init 3) 0) 0 = "boom1" := by decide
 
 end BoaVerif.C17.Async
